@@ -786,7 +786,8 @@ func c05() {
 		depth = 5
 	}
 	poolExplore("C05", depth, true, nil)
-	run.Rule = "pool universes (main m1..m4 with a conflicting spend in m2, the parent of menu set 'chain' confirmed without its child in m3 and the grandparent of 'chain3' in m4; branch b2..b5 confirming menu transaction 'a' in b3) in 3 regimes; ops: submit path up to m1/m2/m3/m4/b2/b3/b5, add each of the 10-11 menu sets (independent, conflicting, parent+child, child only, partly known, conflict at position 1, invalid at position 1, stale basis), mine (real coreutils.MineBlock, then AddBlocks); BFS by replay (the pool cannot be cloned) with state key = store + tip + private pool state; distinct = distinct states"
+	c05NearFullBlock()
+	run.Rule = "pool universes (main m1..m4 with a conflicting spend in m2, the parent of menu set 'chain' confirmed without its child in m3 and the grandparent of 'chain3' in m4; branch b2..b5 confirming menu transaction 'a' in b3) in 3 regimes; ops: submit path up to m1/m2/m3/m4/b2/b3/b5, add each of the 10-11 menu sets (independent, conflicting, parent+child, child only, partly known, conflict at position 1, invalid at position 1, stale basis), mine (real coreutils.MineBlock, then AddBlocks); BFS by replay (the pool cannot be cloned) with state key = store + tip + private pool state; plus MineBlock on a pool holding one transaction of weight (maximum block weight - d) for d in 0..24; distinct = distinct states"
 	run.Explanation = fmt.Sprintf("depth bound %d. After every transition: every prefix of PoolTransactions()+V2PoolTransactions() validates on a fresh MidState of the reference tip with reference supplements, v2 proofs equal the reference ledger's; mined blocks are valid per the reference, accepted by the node and by a fresh linear node; a reference lower-bound pool (accepted, not confirmed, no input missing on any intermediate tip of any reorg, still valid in acceptance order) is contained in the reported pool.", depth)
 	run.Assumptions = []string{"fee-based eviction of a full pool is not explored (needs >= 2*10^7 weight units)", "contract revision/resolution sets are exercised by the C13 check, not here"}
 }
